@@ -352,21 +352,26 @@ class Dyn(object):
         own = set(f.__code__.co_varnames) | set(f.__code__.co_cellvars)
         self.locals = own
         nested = {}       # code name -> [(set of lines, code)]: a local function may be re-defined under the same name
-        todo = [f.__code__]
+        self.depth = {}   # id(code) -> nesting depth below the function (1 = defined directly in it)
+        todo = [(f.__code__, 0)]
         while todo:
-            c = todo.pop()
+            c, dep = todo.pop()
             for k in c.co_consts:
                 if hasattr(k, 'co_code'):
                     if k.co_name == fname:
                         return      # ambiguous code names
                     lines = set(l for _, _, l in k.co_lines() if l is not None) | {k.co_firstlineno}
                     nested.setdefault(k.co_name, []).append((lines, k))
-                    todo.append(k)
+                    self.depth[id(k)] = dep + 1
+                    todo.append((k, dep + 1))
         self.nested = nested
 
         def code_at(name, line):
             cands = [k for lines, k in nested[name] if line in lines]
+            if len(cands) > 1:      # an inner function's lines also belong to the enclosing one: take the innermost
+                cands = [k for k in cands if self.depth[id(k)] == max(self.depth[id(c)] for c in cands)]
             return cands[0] if len(cands) == 1 else None
+        self.code_at = code_at
         ev = []           # (op, var, owner, line) or ('line', lineno) / ('gap', lineno)
         inst = []
         # synthetic first instance: parameter binding at the args node
@@ -522,6 +527,11 @@ def liveness_failures(an, fi, dyn):
                 break
         if exhausted_header_between(fi, dyn, var, k, kq):
             known = 'for-target-killed-on-exit-edge'
+        elif (ev[q][2] is not None and ev[q][2] in dyn.nested and dyn.code_at(ev[q][2], ev[q][3]) is not None
+              and dyn.depth[id(dyn.code_at(ev[q][2], ev[q][3]))] >= 2 and var in nl.get(ev[q][2], ())):
+            # the read is performed by a function nested at least two levels down that declares the variable
+            # nonlocal: activity folds the inner function's scope into the middle one with `read - bound`
+            known = 'liveness-nonlocal-two-levels-down'
         elif ev[q][2] is not None and var in nl.get(ev[q][2], ()):
             known = 'liveness-nonlocal-closure-read'
         elif ev[q][2] == '<lambda>' and any(x.line == ev[q][3] and x.start < p for x in lab):
@@ -770,23 +780,50 @@ class EscapeGen(_progs.Gen):
         self.emit(ind, 'def %s():' % name)
         need = set()
         cand = [v for v in sorted(plain) if v in self.vars]
-        nl = [v for v in cand if r.random() < 0.4][:1] if (captures and r.random() < 0.4) else []
+        nl = [v for v in cand if r.random() < 0.4][:1] if (captures and r.random() < 0.5) else []
+        two = r.random() < 0.2          # the work is done by a function nested one level further down
+        if two and nl and r.random() < 0.7:
+            nl = []                     # (nonlocal two levels down is a known finding: keep it rare)
+        if two:
+            inner = '%si' % name
+            self.emit(ind + 1, 'def %s():' % inner)
+            ind += 1
         if nl:
-            self.emit(ind + 1, 'nonlocal %s' % ', '.join(nl))
+            # the declaration (global / nonlocal) may sit inside compound statements, at several levels
+            d = ind + 1
+            for _ in range(r.choice([0, 0, 1, 1, 2])):
+                kind = r.choice(['if', 'if', 'while', 'for'])
+                if kind == 'if':
+                    self.emit(d, 'if D(%d):' % self.key())
+                elif kind == 'while':
+                    self.emit(d, 'while D(%d):' % self.key())
+                else:
+                    self.emit(d, 'for i%d in L(%d):' % (self.key(), self.key()))
+                d += 1
+            if r.random() < 0.2:
+                self.emit(d, 'global GV')
+                self.emit(d, 'GV = T(%d)' % self.key())
+            self.emit(d, 'nonlocal %s' % ', '.join(nl))
             if r.random() < 0.5:
                 need.add(nl[0])
-                self.emit(ind + 1, '%s += T(%d)' % (nl[0], self.key()))
+                self.emit(d, '%s += T(%d)' % (nl[0], self.key()))
             else:
-                self.emit(ind + 1, '%s = T(%d)' % (nl[0], self.key()))
+                self.emit(d, '%s = T(%d)' % (nl[0], self.key()))
         rd = ([v for v in sorted(plain) if r.random() < 0.5][:2] or sorted(plain)[:1]) if captures else []
         need |= set(rd)
         args = ''.join(', ' + v for v in rd)
+        if nl and r.random() < 0.6:
+            rd = sorted(set(rd) | set(nl))          # the value the function left in the variable is read through it
+            need |= set(nl)
+            args = ''.join(', ' + v for v in rd)
         if callee is not None:
             self.emit(ind + 1, 'T(%d%s)' % (self.key(), args))
             self.emit(ind + 1, 'return %s' % callee[0])
             need |= callee[2] | {callee[1]}
         else:
             self.emit(ind + 1, 'return T(%d%s)' % (self.key(), args))
+        if two:
+            self.emit(ind, 'return %s()' % inner)
         return need
 
     def bind_def(self, name, need):
@@ -1124,26 +1161,46 @@ def coq_scope(d, nt):
 
 def fn_free_reads(fnode):
     """S: (names a local function reads from the enclosing function without declaring them nonlocal,
-           names it declares nonlocal and reads)"""
-    reads, stores, nl, gl = set(), set(), set(), set()
+           names it declares nonlocal and reads).  Functions / lambdas nested in it contribute what they read
+    from outside themselves, unless fnode binds that name itself."""
+    reads, stores, nl, gl, inner_nl = set(), set(), set(), set(), set()
     for a in fnode.args.posonlyargs + fnode.args.args + fnode.args.kwonlyargs:
         stores.add(a.arg)
-    for s in fnode.body:
-        for n in ast.walk(s):
-            if isinstance(n, ast.Name):
-                if isinstance(n.ctx, ast.Load) or isinstance(n.ctx, ast.Del):
-                    reads.add(n.id)
-                if isinstance(n.ctx, (ast.Store, ast.Del)):
-                    stores.add(n.id)
-            elif isinstance(n, ast.AugAssign) and isinstance(n.target, ast.Name):
-                reads.add(n.target.id)
-            elif isinstance(n, ast.Nonlocal):
-                nl |= set(n.names)
-            elif isinstance(n, ast.Global):
-                gl |= set(n.names)
-            elif isinstance(n, (ast.FunctionDef, ast.Lambda, ast.ClassDef)) and n is not fnode:
-                raise Unsupported('function nested in a nested function')
-    return sorted(reads - stores - gl - nl), sorted(reads & nl)
+    todo = list(fnode.body)
+    while todo:
+        n = todo.pop()
+        if isinstance(n, ast.FunctionDef):
+            stores.add(n.name)
+            a2, b2 = fn_free_reads(n)
+            reads |= set(a2)
+            inner_nl |= set(b2)
+            todo.extend(n.decorator_list)
+            todo.extend(d for d in n.args.defaults + n.args.kw_defaults if d is not None)
+            continue
+        if isinstance(n, ast.Lambda):
+            reads |= set(lambda_free_reads(n))
+            continue
+        if isinstance(n, ast.ClassDef):
+            raise Unsupported('class in a nested function')
+        if isinstance(n, ast.Name):
+            if isinstance(n.ctx, ast.Load) or isinstance(n.ctx, ast.Del):
+                reads.add(n.id)
+            if isinstance(n.ctx, (ast.Store, ast.Del)):
+                stores.add(n.id)
+        elif isinstance(n, ast.AugAssign) and isinstance(n.target, ast.Name):
+            reads.add(n.target.id)
+        elif isinstance(n, ast.Nonlocal):
+            nl |= set(n.names)
+        elif isinstance(n, ast.Global):
+            gl |= set(n.names)
+        todo.extend(ast.iter_child_nodes(n))
+    own = stores - nl - gl
+    if inner_nl - own:
+        # a function nested deeper declares a variable of an outer function nonlocal and reads it: activity folds the
+        # inner scope with `read - bound`, which loses that read (known finding liveness-nonlocal-two-levels-down);
+        # such programs are judged by the dynamic oracle only
+        raise Unsupported('nonlocal read two function levels down')
+    return sorted(reads - own - gl - nl), sorted(reads & nl)
 
 
 def stmt_annos(an, fi, nt):
@@ -1492,8 +1549,10 @@ def check_property(run, kind, generate):
         run.extra['coq_case_failures'] = {str(k): len(v) for k, v in by_code.items()}
         for code, idxs in sorted(by_code.items()):
             if kind == 'lv' and code == 6:
-                run.violation('variables read and declared nonlocal by a reaching local function are not live', {},
-                              classify='liveness-nonlocal-closure-read')
+                run.violation('variables read and declared nonlocal by a reaching local function are not live',
+                              {'program': meta[idxs[0]][0], 'function': meta[idxs[0]][1],
+                               'broken': 'lv_sound with the nonlocal clause (coq/Flow/Dataflow.v) is false on the exported data'},
+                              found_input=False, classify='liveness-nonlocal-closure-read')
                 continue
             if kind == 'lv' and code == 8:
                 run.violation('free variables of lambda expressions that are called later are not live',
